@@ -34,9 +34,10 @@ VARIABLES l, size, phase, latestGen, completedGen,
           popCtx,    \* thread -> [stable, want] recorded at its last Pop
           giving,    \* thread -> [rid, gen] the resource it is returning
           waiting,   \* threads that logged Wait and have not been served / timed out
-          tainted    \* resources covered by a listed known finding (see TKnown*)
+          tainted,   \* resources covered by a listed known finding (see TKnown*)
+          pushCtx    \* (prover traces) thread -> [chk, want] recorded at its last give-back
 
-tvars == <<l, size, phase, latestGen, completedGen, popCtx, giving, waiting, tainted>>
+tvars == <<l, size, phase, latestGen, completedGen, popCtx, giving, waiting, tainted, pushCtx>>
 
 NoCtx == [stable |-> FALSE, want |-> 0]
 NoRes == [rid |-> 0, gen |-> 0]
@@ -49,46 +50,46 @@ E == Rec[l]
 TraceInit ==
     /\ l = 1 /\ size = 0 /\ phase = "stable" /\ latestGen = 0 /\ completedGen = 0
     /\ popCtx = [t \in Thread |-> NoCtx] /\ giving = [t \in Thread |-> NoRes]
-    /\ waiting = {} /\ tainted = {}
+    /\ waiting = {} /\ tainted = {} /\ pushCtx = [t \in Thread |-> [chk |-> FALSE, want |-> 0]]
 
 TNewPool ==
     /\ IsEvent("NewPool")
     /\ waiting = {}                      \* Woken: the previous run left nobody waiting
     /\ size' = E.size /\ phase' = "stable" /\ latestGen' = 0 /\ completedGen' = 0
     /\ popCtx' = [t \in Thread |-> NoCtx] /\ giving' = [t \in Thread |-> NoRes]
-    /\ waiting' = {} /\ tainted' = {}
+    /\ waiting' = {} /\ tainted' = {} /\ pushCtx' = [t \in Thread |-> [chk |-> FALSE, want |-> 0]]
 
 TPop ==
     /\ IsEvent("Pop")
     /\ popCtx' = [popCtx EXCEPT ![E.t] = [stable |-> (phase = "stable"), want |-> completedGen]]
     /\ waiting' = waiting \ {E.t}
-    /\ UNCHANGED <<size, phase, latestGen, completedGen, giving, tainted>>
+    /\ UNCHANGED <<size, phase, latestGen, completedGen, giving, tainted, pushCtx>>
 
 TGot ==
     /\ IsEvent("Got")
     /\ \/ popCtx[E.t].stable => E.gen = popCtx[E.t].want        \* NoStaleHandout
        \/ E.rid \in tainted
-    /\ UNCHANGED <<size, phase, latestGen, completedGen, popCtx, giving, waiting, tainted>>
+    /\ UNCHANGED <<size, phase, latestGen, completedGen, popCtx, giving, waiting, tainted, pushCtx>>
 
 TWait ==
     /\ IsEvent("Wait")
     /\ waiting' = waiting \cup {E.t}
-    /\ UNCHANGED <<size, phase, latestGen, completedGen, popCtx, giving, tainted>>
+    /\ UNCHANGED <<size, phase, latestGen, completedGen, popCtx, giving, tainted, pushCtx>>
 
 TTimeout ==
     /\ IsEvent("Timeout")
     /\ waiting' = waiting \ {E.t}
-    /\ UNCHANGED <<size, phase, latestGen, completedGen, popCtx, giving, tainted>>
+    /\ UNCHANGED <<size, phase, latestGen, completedGen, popCtx, giving, tainted, pushCtx>>
 
 TNoEffect ==
     /\ \/ IsEvent("AcquireFailed") \/ IsEvent("StaleDrop") \/ IsEvent("FullDrop")
        \/ IsEvent("RefreshBegin")
-    /\ UNCHANGED <<size, phase, latestGen, completedGen, popCtx, giving, waiting, tainted>>
+    /\ UNCHANGED <<size, phase, latestGen, completedGen, popCtx, giving, waiting, tainted, pushCtx>>
 
 TGiveBack ==
     /\ IsEvent("GiveBack")
     /\ giving' = [giving EXCEPT ![E.t] = [rid |-> E.rid, gen |-> E.gen]]
-    /\ UNCHANGED <<size, phase, latestGen, completedGen, popCtx, waiting, tainted>>
+    /\ UNCHANGED <<size, phase, latestGen, completedGen, popCtx, waiting, tainted, pushCtx>>
 
 TPush ==
     /\ IsEvent("Push")
@@ -96,28 +97,28 @@ TPush ==
     /\ \/ phase = "set"                                           \* inside the window
        \/ giving[E.t].gen = latestGen                             \* NoStaleAdmit
        \/ giving[E.t].rid \in tainted
-    /\ UNCHANGED <<size, phase, latestGen, completedGen, popCtx, giving, waiting, tainted>>
+    /\ UNCHANGED <<size, phase, latestGen, completedGen, popCtx, giving, waiting, tainted, pushCtx>>
 
 TSetDisc ==
     /\ IsEvent("SetDisc")
     /\ latestGen' = E.d /\ phase' = "set"
-    /\ UNCHANGED <<size, completedGen, popCtx, giving, waiting, tainted>>
+    /\ UNCHANGED <<size, completedGen, popCtx, giving, waiting, tainted, pushCtx>>
 
 TClear ==
     /\ IsEvent("Clear")
     /\ phase' = IF phase = "set" THEN "cleared" ELSE phase
-    /\ UNCHANGED <<size, latestGen, completedGen, popCtx, giving, waiting, tainted>>
+    /\ UNCHANGED <<size, latestGen, completedGen, popCtx, giving, waiting, tainted, pushCtx>>
 
 TSetDiscAndClear ==
     /\ IsEvent("SetDiscAndClear")
     /\ latestGen' = E.d /\ phase' = "cleared"
-    /\ UNCHANGED <<size, completedGen, popCtx, giving, waiting, tainted>>
+    /\ UNCHANGED <<size, completedGen, popCtx, giving, waiting, tainted, pushCtx>>
 
 TRefreshDone ==
     /\ IsEvent("RefreshDone")
     /\ E.gen = latestGen
     /\ completedGen' = E.gen /\ phase' = "stable"
-    /\ UNCHANGED <<size, latestGen, popCtx, giving, waiting, tainted>>
+    /\ UNCHANGED <<size, latestGen, popCtx, giving, waiting, tainted, pushCtx>>
 
 (***************************************************************************)
 (* Known findings (KNOWN_FINDINGS.jsonl, status "known").  A finding for   *)
@@ -137,9 +138,48 @@ TKnownWindowGot ==
           /\ MatchesKnown([ev |-> "Got", window |-> "set"], Known[i])
           /\ PrintT(<<"KNOWN-USED", ToJson([id |-> Known[i].id, seq |-> l])>>)
     /\ tainted' = tainted \cup {E.rid}
-    /\ UNCHANGED <<size, phase, latestGen, completedGen, popCtx, giving, waiting>>
+    /\ UNCHANGED <<size, phase, latestGen, completedGen, popCtx, giving, waiting, pushCtx>>
+
+(***************************************************************************)
+(* Prover traces (the real MithrilProverService): a proof request is       *)
+(*   PPop (acquire, under lock) ... PPush / StaleDrop / FullDrop (explicit *)
+(*   give-back inside compute_proof) ... Proved gen (after it returned:    *)
+(*   gen = generation of the cached map the proof was computed from,       *)
+(*   recognised from the proof's Merkle root).  The refresh's own pushes   *)
+(*   are RPush.  The generation is only known at Proved, so the hand-out   *)
+(*   and re-admission rules are checked there against the contexts         *)
+(*   recorded at PPop / PPush.                                             *)
+(***************************************************************************)
+TPPop ==
+    /\ IsEvent("PPop")
+    /\ popCtx' = [popCtx EXCEPT ![E.t] = [stable |-> (phase = "stable"), want |-> completedGen]]
+    /\ pushCtx' = [pushCtx EXCEPT ![E.t] = [chk |-> FALSE, want |-> 0]]
+    /\ waiting' = waiting \ {E.t}
+    /\ UNCHANGED <<size, phase, latestGen, completedGen, giving, tainted>>
+
+TPPush ==
+    /\ IsEvent("PPush")
+    /\ E.len <= size                                              \* Bounded
+    /\ pushCtx' = [pushCtx EXCEPT ![E.t] = [chk |-> (phase \in {"stable", "cleared"}), want |-> latestGen]]
+    /\ UNCHANGED <<size, phase, latestGen, completedGen, popCtx, giving, waiting, tainted>>
+
+TRPush ==
+    /\ IsEvent("RPush")
+    /\ E.len <= size                                              \* Bounded
+    /\ UNCHANGED <<size, phase, latestGen, completedGen, popCtx, giving, waiting, tainted, pushCtx>>
+
+TProved ==
+    /\ IsEvent("Proved")
+    /\ popCtx[E.t].stable => E.gen = popCtx[E.t].want             \* NoStaleHandout
+    /\ pushCtx[E.t].chk => E.gen = pushCtx[E.t].want              \* NoStaleAdmit
+    /\ UNCHANGED <<size, phase, latestGen, completedGen, popCtx, giving, waiting, tainted, pushCtx>>
+
+TProverNoEffect ==
+    /\ IsEvent("ProofNone")
+    /\ UNCHANGED <<size, phase, latestGen, completedGen, popCtx, giving, waiting, tainted, pushCtx>>
 
 TraceNext ==
+    \/ TPPop \/ TPPush \/ TRPush \/ TProved \/ TProverNoEffect
     \/ TNewPool \/ TPop \/ TGot \/ TWait \/ TTimeout \/ TNoEffect \/ TGiveBack \/ TPush
     \/ TSetDisc \/ TClear \/ TSetDiscAndClear \/ TRefreshDone \/ TKnownWindowGot
 
